@@ -89,3 +89,30 @@ Definition shape_safe (p : prog) : bool :=
       end
   | _ => false
   end.
+
+(* ---- any statement order: a decidable criterion ----
+   What a thread has done to its own tokenizer after the first n statements, had it run them in a row (a read that finds the
+   slot empty changes nothing; one that finds it filled ends the call). *)
+Record astate := { a_alloc : bool; a_adds : nat; a_fin : bool; a_pub : bool }.
+Definition a0 : astate := {| a_alloc := false; a_adds := 0; a_fin := false; a_pub := false |}.
+Definition astep (s : astate) (i : instr) : astate :=
+  match i with
+  | IRead | IReturn => s
+  | IAlloc => {| a_alloc := true; a_adds := 0; a_fin := false; a_pub := a_pub s |}
+  | IAdd => {| a_alloc := a_alloc s; a_adds := S (a_adds s); a_fin := a_fin s; a_pub := a_pub s |}
+  | IFinalize => {| a_alloc := a_alloc s; a_adds := a_adds s; a_fin := true; a_pub := a_pub s |}
+  | IPublish => {| a_alloc := a_alloc s; a_adds := a_adds s; a_fin := a_fin s; a_pub := true |}
+  end.
+Definition abs_at (p : prog) (n : nat) : astate := fold_left astep (firstn n p) a0.
+Definition a_complete (p : prog) (s : astate) : bool := a_alloc s && Nat.eqb (a_adds s) (nadds p) && a_fin s.
+
+(* a statement may publish or return the own tokenizer only when it is complete, and may change the own tokenizer only as long
+   as it has not been published *)
+Definition ok_at (p : prog) (n : nat) (i : instr) : bool :=
+  match i with
+  | IPublish | IReturn => a_complete p (abs_at p n)
+  | IAlloc | IAdd | IFinalize => negb (a_pub (abs_at p n))
+  | IRead => true
+  end.
+Definition safe_order (p : prog) : bool :=
+  forallb (fun n => match nth_error p n with Some i => ok_at p n i | None => true end) (seq 0 (length p)).
